@@ -117,11 +117,18 @@ class ScriptedBroker(AsyncBroker):
                 await asyncio.sleep(d)
             if ackkind is None:
                 item: Any = data
-            elif ackkind == "sync":
-                item = AckableMessage(data=data, ack=(lambda i=i: self.tr.add("ack", i)))
-            else:
-                async def ack(i: int = i) -> None:
+            elif ackkind in ("sync", "sync_fail"):
+                def sack(i: int = i, fail: bool = ackkind == "sync_fail") -> None:
                     self.tr.add("ack", i)
+                    if fail:
+                        raise ConnectionResetError("ack failed")
+
+                item = AckableMessage(data=data, ack=sack)
+            else:
+                async def ack(i: int = i, fail: bool = ackkind == "async_fail") -> None:
+                    self.tr.add("ack", i)
+                    if fail:
+                        raise ConnectionResetError("ack failed")
 
                 item = AckableMessage(data=data, ack=ack)
             self.tr.add("take", i)
@@ -278,6 +285,10 @@ def register_timing_tasks(broker: ScriptedBroker, tr: Trace, sc: Dict[str, Any])
                 raise EXC[sp["out"]]()
             return ret_value(sp, i)
         finally:
+            if sp.get("cleanup"):
+                # asynchronous clean-up: after a cancellation (timeout) the body needs further loop iterations to finish
+                tr.add("cleanup", i)
+                await asyncio.sleep(sp["cleanup"])
             tr.add("exit", i)
 
     def stask(i: int) -> Any:
@@ -305,7 +316,7 @@ def build_script(broker: ScriptedBroker, sc: Dict[str, Any]) -> List[Any]:
         if sp.get("timeout") is not None:
             labels["timeout"] = sp["timeout"]
         args = sp.get("args", [i])
-        m = make_message(broker, tname, i, args, sp.get("kwargs"), labels)
+        m = make_message(broker, tname, sp.get("dup_of", i), args, sp.get("kwargs"), labels)
         if kind == "unknown":
             m.task_name = "no.such.task"
         data = broker.formatter.dumps(m).message
@@ -376,6 +387,10 @@ def run_worker(sc: Dict[str, Any], register: Optional[Callable[..., None]] = Non
             res["deadlock"] = True
             res["trace"] = list(tr.ev)
             res["deadlock_msg"] = str(exc)
+        except (KeyboardInterrupt, SystemExit, GeneratorExit) as exc:
+            # an exception of a task function reached the event loop itself: in a real worker process this ends the worker
+            res["trace"] = list(tr.ev)
+            res["listen_exc"] = f"{type(exc).__name__} escaped from message processing to the event loop (the worker process would die)"
     finally:
         loop.max_iterations = 0
         try:
